@@ -139,5 +139,115 @@ claim('C11',
       'Not decided: the limiter over real time sequences (the table is decided, not its consequences over histories). '
       + _TB, 'DESIGN.md section 3, C11')
 
-for _p in ['C02', 'C12', 'C13', 'C14', 'C15', 'C16', 'C17', 'C18', 'C20']:
-    decline(_p, _NB)
+claim('C02',
+      'polynomial normal form of index expressions (chunk layout), guard/path-count rules on the reorder buffer, '
+      'constructor-binding agreement between producer and consumer',
+      'Decides: batch i of _get_tasks covers [i*c, (i+1)*c) and MapResult writes/acks exactly that slice with the same '
+      'c and length; parts awaited = ceil(length/c) in an accepted form; an empty input always forces zero chunks and '
+      'resolves at once; imap releases an item only at its own index (directly or popped at key _index), pairs every '
+      'release with one index step, parks early items under their own index, stops only at index == length; the '
+      'length announced is enumerate index + 1 with per-sequence reset of the feeder state; map/starmap/imap use the '
+      'right mapper and flatten chunks in order; the exception record rebuilds with the remote text as cause.',
+      'Not decided: equality with a sequential map for all functions/inputs (a runtime fact), pickling fidelity, which '
+      'error a failed map reports. ' + _TB, 'DESIGN.md section 3, C02')
+
+claim('C12',
+      'reduce/rebuild writer-reader matching over every pickling hook + guard rules on the bounded copy and the '
+      'encoding-error fallback',
+      'Decides: every __reduce__/__getstate__/registered reducer in einfo.py and pool.py agrees in arity and position '
+      'with its reader; the traceback copy recurses only under depth <= bound with depth + 1 and ends in the '
+      'truncation marker, the default bound is recursionlimit // k; every handler around the READY put attempts the '
+      'failure-flagged fallback built from MaybeEncodingError (which holds only reprs); the stand-ins carry the '
+      'attributes the formatter reads; the text is format_exception of the real, unlimited traceback; get() raises the '
+      'transported exception with the remote text as cause.',
+      'Not decided: anything per input (depth actually reached, text equality after round trips, which exceptions '
+      'pickle, repr() of a pathological value). ' + _TB, 'DESIGN.md section 3, C12')
+
+claim('C13',
+      'loop-shape rules (must-pass within an iteration, guards at exits), bounds-check completeness by reachability '
+      'under blocked outcomes, framing agreement with struct.calcsize on the literal',
+      'Decides for the POSIX Connection: pack/unpack formats equal, header read size = calcsize, payload size = value '
+      'unpacked, header before payload; the write loop leaves only at remaining == 0 and advances remaining/buffer only '
+      'after the completed write of that iteration, retrying only EINTR; the read loop asks at most `remaining`, stores '
+      'and counts every chunk, EOFError only at a boundary and an error inside a message; closed/direction checks '
+      'dominate all I/O; the send is reachable only through all four passing bounds checks; BufferTooShort iff the '
+      'message does not fit behind offset and readinto only otherwise; oversize decided before the payload is read '
+      'and makes the connection unreadable.',
+      'Not decided: execution of the loops under kernel short counts/EINTR (their shape is decided), ordering across '
+      'messages (kernel FIFO), wait/_poll, the win32 PipeConnection arm (folded away). ' + _TB,
+      'DESIGN.md section 3, C13')
+
+claim('C14',
+      'lock-region analysis + who-may-write/who-may-call, per-path all-or-nothing effects on the four free-list '
+      'indexes, key-role and normal-form checks of the split arithmetic',
+      'Decides: indexes and live set are mutated only by Heap methods, private mutators run only inside the lock '
+      '(with-region or successful try-lock released in finally), a failed try-lock only defers, deferred blocks are '
+      'popped one by one and each is freed; a block leaving its length bucket leaves both address indexes on the same '
+      'path with (arena,start)/(arena,stop) keys; coalescing probes stop-index@start and start-index@stop and absorbs; '
+      'malloc hands out [start, start+rounded size), frees the remainder iff new_stop < stop on every such path, '
+      'records the block live before returning; alignment is a power of two >= 8 and _roundup is (n+a-1)&~(a-1); '
+      'best fit by bisect_left, new arena only when nothing fits and large enough.',
+      'Not decided: disjointness / exact partition / reuse as consequences over allocate-free histories (arithmetic '
+      'over runtime values), GC re-entrancy timing. ' + _TB, 'DESIGN.md section 3, C14')
+
+claim('C15',
+      'ordering (dominance) of allocate/zero/initialise, lock-region check of every accessor incl. the generated '
+      'property template (parsed after substitution), reduce/rebuild matching',
+      'Decides: RawValue/RawArray memset sizeof(obj) bytes between _new_value and use, the initialiser form sizes by '
+      'len(initialiser) and passes every element, type codes map to the same-named ctypes types; each object gets a '
+      'fresh BufferWrapper of sizeof(type) whose finalizer frees exactly its block and whose view is exactly the '
+      'block; every accessor touches _obj only inside the wrapper lock (template: acquire/try/finally release); '
+      'objects travel as (type, wrapper, length) only while spawning and the lock travels with them; plus the heap '
+      'split/rounding rules the isolation rests on.',
+      'Not decided: cross-process visibility of mmap writes, atomicity under contention and zero fill of recycled '
+      'storage as runtime facts. ' + _TB, 'DESIGN.md section 3, C15')
+
+claim('C16',
+      'lock-region and typestate rules (release only what was acquired), per-path pairing counts of the capacity '
+      'semaphore, state-pair matching',
+      'Decides: every receive is inside the reader lock and no release is reachable after a failed timed acquire; '
+      'feeder and SimpleQueue writes are inside the writer lock; an item is buffered only after the capacity acquire '
+      'succeeded and Full is raised exactly otherwise; exactly one place is returned per completed receive and none on '
+      'an Empty path; the buffer is appended right / taken left; one unfinished-task credit per accepted item inside '
+      'the condition and never for a rejected put, task_done refuses below zero and notifies at zero, join waits iff '
+      'non-zero; __getstate__/__setstate__ agree for the three queue classes.',
+      'Not decided: exactly-once delivery and per-producer order end to end (schedules), timing of Empty/Full. '
+      + _TB, 'DESIGN.md section 3, C16')
+
+claim('C17',
+      'protocol-shape rules on Condition.wait / notify / notify_all and Event (dominance, per-iteration must-pass, '
+      'counter-tied loops); no interleaving exploration',
+      'Decides: the wrappers construct the semaphore with the right kind/value/max; wait announces while holding the '
+      'lock, releases it count times, blocks with the timeout, and on every exit acknowledges before re-acquiring '
+      'count times and returns the acquire result; notify/notify_all assert ownership and a zero wait semaphore first, '
+      'reconcile one sleeper per timed-out waiter, release one token per sleeper grabbed with one acknowledgement each '
+      '(counter-tied), and drain stale tokens (by a loop where several can exist); every Event method runs inside its '
+      'condition, successful probes are paired with a release, wait returns the probe made after waiting.',
+      'NOT decided and not claimed: lost-wake-up freedom over interleavings -- the heart of the property -- needs a '
+      'model checker over the semaphore operations, a different technique family; fairness; the C semaphore. '
+      'The shape rules are necessary conditions only. ' + _TB, 'DESIGN.md section 3, C17')
+
+claim('C18',
+      'completed-call dominance on the hand-over paths, reaching-definition rule for the challenge, guard rules on '
+      'the verdict, sibling agreement of deliverer and answerer',
+      'Decides: accept()/Client()/the manager server hand over (or read the request) only after both challenge '
+      'directions completed, listener delivering first and client answering first; the challenge has exactly one '
+      'definition, os.urandom(>=16) evaluated in the body of every call; digest = HMAC(key, that challenge, alg) with '
+      'the same structure on both sides; WELCOME only under whole-value equality, FAILURE + AuthenticationError '
+      'otherwise; the answerer strips exactly the prefix and fails unless welcomed; all handshake reads are bounded '
+      'constants and never unpickle; non-bytes keys are rejected before use; keys pickle only while spawning.',
+      'Not decided: the iff over all key pairs (a property of HMAC, e.g. zero padding of short keys), replay '
+      'resistance beyond challenge freshness. ' + _TB, 'DESIGN.md section 3, C18')
+
+claim('C20',
+      'guard dominance on dispatch, who-presents-the-key over all client constructions, ordering/pairing rules on the '
+      'reference protocol, exhaustiveness of reply kinds',
+      'Decides: getattr on a referent only under methodname in exposed (fallbacks are the three read-only names), '
+      'server functions only after funcname in self.public; every client construction in managers.py passes the '
+      'manager key; create() zeroes the count only for a new id, registers then pre-increments under the mutex; '
+      'consumers build the proxy (with incref) before the compensating decref of the same token; incref/decref are '
+      'single steps under the mutex and dispose both tables exactly at zero; the proxy finalizer decrefs its own '
+      'token; every reply kind is handled and #ERROR re-raises the transported exception; the handshake rules of C18.',
+      'Not decided: equivalence with local objects, atomicity of single operations (server threading), lifetime over '
+      'real create/pass/drop histories. ' + _TB, 'DESIGN.md section 3, C20')
+
